@@ -29,6 +29,7 @@ type gen struct {
 	out     strings.Builder
 	js      map[string]interface{}
 	problem []string // untranslatable items
+	treeSum string   // hash of the tree's sources (goeval.go)
 }
 
 func (g *gen) file(rel string) *ast.File {
@@ -192,7 +193,13 @@ func main() {
 	out := flag.String("out", "", "Tables.v to write (only when changed)")
 	jsonOut := flag.String("json", "", "JSON copy of the tables")
 	only := flag.String("only", "", "development aid: run only the generators whose name starts with one of these comma-separated prefixes; the output then imports Generated.Tables and is meant for a scratch file, never for Generated/Tables.v")
+	flag.BoolVar(&evalDisabled, "noeval", false, "development aid: do not evaluate compiled code (goeval.go), pattern generators only")
+	flag.BoolVar(&evalOnly, "evalonly", false, "development aid: ignore the pattern route wherever a table can be evaluated (goeval.go)")
 	flag.Parse()
+	prevTablesPath = *out // coqbool.go: the spelling of an unchanged value is kept
+	if *jsonOut != "" {
+		evalCachePath = filepath.Join(filepath.Dir(*jsonOut), "tablegen-eval-cache.json")
+	}
 
 	g := &gen{repo: *repo, fset: token.NewFileSet(), files: map[string]*ast.File{}, js: map[string]interface{}{}}
 	g.p("(* GENERATED by /verif/go/cmd/tablegen from the Go sources of robfig/soy.\n   Do not edit: regenerated on every check run. *)\n")
